@@ -32,7 +32,8 @@ def base_world(seed, i):
 
 
 def tree_of(rr):
-    return {k: (v[0], v[1] if v[0] != "dir" else None) for k, v in rr.after.items()}
+    # (the second spelling of a scan directory given through a symbolic link is in the snapshot only when that link is a scan root)
+    return {k: (v[0], v[1] if v[0] != "dir" else None) for k, v in rr.after.items() if not k[0].startswith(b"lnk_")}
 
 
 def correspondence(ctx):
